@@ -223,6 +223,7 @@ func runC18(c *Ctx) {
 		fn := core.FuncName(e)
 		R.Check(e.Signature.Results().Len() == 0, "R18.2", fn+"#no-error", e.Pos(), fn, "enrichment cannot fail the request", "EnrichWithReverseDns now returns a value")
 		nst := 0
+		assignedKinds := map[string]bool{}
 		// the pass may be split over methods of the document's types (a per-run method that attaches the names)
 		var scope []*ssa.Function
 		for _, g := range ModReach(c.P, e) {
@@ -292,12 +293,62 @@ func runC18(c *Ctx) {
 						// v = lookup(map, conv[string](X.IPAddress)) with X the owner
 						ok := v.Op == "lookup" && v.Args[1].Op == "conv" && v.Args[1].Name == "string" && v.Args[1].Args[0].Op == "field" && v.Args[1].Args[0].Name == "IPAddress" &&
 							sameOwner(v.Args[1].Args[0].Args[0], owner) && fromBatch
-						R.Check(ok, "R18.1", fmt.Sprintf("%s#assign[%s]", fn, ownerKind(owner)), st.Pos(), fn, "names = map[string(own address)] assigned to the owner of that address", "names assigned to "+owner.String()+" come from "+v.String())
+						assignedKinds[ownerKind(owner)] = true
+					R.Check(ok, "R18.1", fmt.Sprintf("%s#assign[%s]", fn, ownerKind(owner)), st.Pos(), fn, "names = map[string(own address)] assigned to the owner of that address", "names assigned to "+owner.String()+" come from "+v.String())
 					}
 				}
 			}
 		}
 		R.Floor("R18.1:reader-assignments", nst, 2)
+		// every kind of owner that gets names attached (destination, hop) has its address in the list handed to the batch lookup:
+		// names are read from the map by the owner's own address, so an address that was never looked up gets none although the
+		// resolver has them
+		asked := map[string]bool{}
+		for _, g := range scope {
+			for _, b := range g.Blocks {
+				for _, in := range b.Instrs {
+					call, ok := in.(*ssa.Call)
+					if !ok {
+						continue
+					}
+					bi, ok := call.Common().Value.(*ssa.Builtin)
+					if !ok || bi.Name() != "append" || len(call.Common().Args) != 2 {
+						continue
+					}
+					sl, ok := call.Type().Underlying().(*types.Slice)
+					if !ok || !isNamed(sl.Elem(), "net", "IP") {
+						continue
+					}
+					for _, pa := range firstPath(g, b) {
+						env := core.NewEnv(c.P, pa)
+						var elems []*core.Term
+						if s2, ok := call.Common().Args[1].(*ssa.Slice); ok {
+							if arr, ok := s2.X.(*ssa.Alloc); ok {
+								for _, r := range *arr.Referrers() {
+									if ia, ok := r.(*ssa.IndexAddr); ok {
+										for _, r2 := range *ia.Referrers() {
+											if st, ok := r2.(*ssa.Store); ok && st.Addr == ssa.Value(ia) {
+												elems = append(elems, env.Term(st.Val))
+											}
+										}
+									}
+								}
+							}
+						}
+						for _, t := range elems {
+							if t.Op == "field" && t.Name == "IPAddress" && len(t.Args) == 1 {
+								asked[ownerKind(t.Args[0])] = true
+							}
+						}
+					}
+				}
+			}
+		}
+		for _, k := range []string{"destination", "hop"} {
+			if assignedKinds[k] {
+				R.Check(asked[k], "R18.1", fmt.Sprintf("%s#looked-up[%s]", fn, k), e.Pos(), fn, "the "+k+" addresses are handed to the batch lookup", "names are attached to the "+k+" from the lookup map, but the "+k+"'s address is never put into the list handed to the batch lookup: the resolver is not asked for it and the names stay empty unless another entry happens to have byte-identical address bytes")
+			}
+		}
 		// hop lists are never written
 		for _, g := range scope {
 			for _, b := range g.Blocks {
@@ -485,6 +536,21 @@ func runC18(c *Ctx) {
 					ret, isRet := succB.Instrs[len(succB.Instrs)-1].(*ssa.Return)
 					okEdges = isRet && valueFrom(ret.Results[0], call, 0) && reachAvoiding(failB, call.Block(), nil, nil) && loop[failB]
 				}
+			}
+			// every provider gets its own time budget: the context handed to the per-provider fetch is the caller's, not one that a
+			// deadline was attached to before the loop (a shared deadline is used up by the first slow provider; the following
+			// ones then fail at once although they are healthy)
+			if loop != nil && len(call.Common().Args) > 0 {
+				okCtx := true
+				if ex, ok := c.P.Def(call.Common().Args[0]).(*ssa.Extract); ok {
+					if src, ok := ex.Tuple.(*ssa.Call); ok && src.Common().StaticCallee() != nil {
+						nm := src.Common().StaticCallee().String()
+						if (nm == "context.WithTimeout" || nm == "context.WithDeadline") && !loop[src.Block()] {
+							okCtx = false
+						}
+					}
+				}
+				R.Check(okCtx, "R18.4", fn+"#per-provider-budget", call.Pos(), fn, "each provider is asked under the caller's context (its own timeout is attached per call)", "all providers share one deadline attached before the loop: a slow or failing first provider uses it up and every later provider fails immediately, so a healthy provider further down the list is never really asked")
 			}
 			R.Check(okLoop && okArg && okEdges, "R18.4", fn+"#iteration", call.Pos(), fn, "providers are asked in list order; the first nil-error answer is returned, failures move on to the next", fmt.Sprintf("provider iteration broken: in range loop=%v, argument is ipCheckers[i]=%v, success returns/failed continues=%v", okLoop, okArg, okEdges))
 		}
